@@ -324,6 +324,7 @@ func TestC16(t *testing.T) {
 			"(a) all sequences up to length N over the protocol's alphabet (blocking/non-blocking and acquire-target variants are separate symbols) whose proper prefixes both automata accept, plus rapid-drawn guided walks up to length 60, compared step by step (acceptance, successor pairing, agency, termination) with the hand-encoded specification automaton; "+
 			"(b) sequences driven in lock step through a real protocol.Protocol (client and server role; local sends via SendMessage, receives as raw mux segments) and compared with the simulation and the specification; (c) every permitted (state, message type) decoded from constructor-built samples; "+
 			"(d) history independence and special values: Copy() compared field by field with the package-level map, copies mutated (entries replaced, transitions appended, states dropped/added), client+server instances with non-default timeouts created, then the package-level maps re-read (again after all engines/instances of the run incl. refused, stopped and restarted ones); restart-capable real servers driven to Done and the new instance's initial state/agency probed; a refusal must shut the protocol down (a following legal message is not accepted); messages whose tag is 255, 256+t, 65536+t, 2^32+t or negative must not be accepted in the probed states; sample variants carry end-of-range field values (version 0/32767/32768/65535, counts 0/65535, slot 2^64-1); "+
+			"(e) for every protocol and both roles the real Client/Server (package constructor, needed callbacks, API calls where a raw send would leave a handler blocked) is brought by a shortest real conversation into every state in which it receives and sent every message of the alphabet: permitted ones must be accepted with the right successor (no refusal, no protocol error before the state machine), forbidden ones refused; "+
 			"non-trivial = sequence of length >= 2 whose last message at least one automaton accepts (verdict depends on the state reached), or a codec sample; distinct by (automaton, sequence[, role])")
 	defer rec.Finish()
 	rec.Assume(
@@ -448,7 +449,8 @@ func TestC16(t *testing.T) {
 	codecPairs, totalEvaluated := 0, 0
 	ec, ecReal := &engineCounters{}, &engineCounters{}
 	nTagProbes := 0
-	var tTags, tRestart time.Duration
+	var tTags, tRestart, tRealSpec time.Duration
+	realSpec := &realSpecStats{}
 	for _, ba := range autos {
 		b, impl := ba.b, ba.impl
 		info := map[string]any{"states": impl.states(), "initial": impl.initial()}
@@ -511,6 +513,19 @@ func TestC16(t *testing.T) {
 			}
 			info["real_object_sequences_per_role"] = len(rseqs)
 		}
+		// the real Client and Server accept the whole automaton: every state in which the
+		// role receives x every message of the alphabet, reached by a real conversation
+		if b.real != nil {
+			mk := b.realKit
+			if mk == nil {
+				mk = func(r protocol.ProtocolRole, o protocol.ProtocolOptions) (*protocol.Protocol, func(), *realKit) {
+					return b.real(r, o), nil, nil
+				}
+			}
+			trs0 := time.Now()
+			realAcceptsSpec(b, impl, mk, rec.Eval, vfail, realSpec)
+			tRealSpec += time.Since(trs0)
+		}
 		// special tag values on the wire, in the initial state and (quick: one, thorough:
 		// every) other non-terminal state
 		acc := shortestAccess(impl, symNames(b))
@@ -540,9 +555,17 @@ func TestC16(t *testing.T) {
 		summary[b.id] = info
 	}
 	rec.SetExtra("wire_tag_probes", nTagProbes)
+	rec.SetExtra("real_object_state_x_message_judged", realSpec.judged)
+	rec.SetExtra("real_object_state_x_message_unreached", len(realSpec.unreached))
+	if len(realSpec.unreached) > 0 {
+		rec.SetExtra("real_object_state_x_message_unreached_list", realSpec.unreached)
+	}
+	if realSpec.judged > 0 {
+		rec.NonTrivial(fmt.Sprintf("real-accepts-spec %d", realSpec.judged), map[string]any{"pass": "real Client/Server objects x receiving states x alphabet", "judged": realSpec.judged, "unreached": len(realSpec.unreached)})
+	}
 	rec.SetExtra("automata", summary)
 	rec.SetExtra("phase_seconds", map[string]float64{"learn": tLearn.Seconds(), "static_and_enumerated_engine": (time.Since(t0) - tLearn).Seconds(),
-		"of_which_wire_tag_probes": tTags.Seconds(), "of_which_restart_probes": tRestart.Seconds()})
+		"of_which_wire_tag_probes": tTags.Seconds(), "of_which_real_accepts_spec": tRealSpec.Seconds(), "of_which_restart_probes": tRestart.Seconds()})
 	rec.SetExtra("codec_state_msg_pairs", codecPairs)
 	rec.SetExtra("exhaustive_depth", depth)
 	rec.SetExtra("engine_exhaustive_depth", engineDepth)
